@@ -26,3 +26,6 @@ func VerifIncrementBytes(in []byte) []byte { return incrementBytes(in) }
 func VerifEnumerateFilter(minBound, maxBound int64, precisionStep uint, filter func([]byte) bool) [][]byte {
 	return splitInt64Range(minBound, maxBound, precisionStep).Enumerate(filter)
 }
+
+// VerifIncrementPrefixCoded exposes incrementPrefixCoded.
+func VerifIncrementPrefixCoded(in []byte) []byte { return incrementPrefixCoded(in) }
